@@ -1,5 +1,6 @@
 import Model.C10.Bip322
 import Proofs.C10.Tap
+import Proofs.C10.Pkh
 import Proofs.E2E.C10
 /-
 C10 — BIP322 simple signatures: sign-then-verify for p2wpkh and p2tr addresses on the executed instance, as corollaries
@@ -63,5 +64,74 @@ theorem simple_p2tr_secp256k1 (flags : Nat) (msg prog : Bytes) (ht : Nat) (hht :
   rw [hcx]
   exact verify_tr_key (envOf secpCrypto flags _) prog _ hq hW hnz
     (Btc.E2E.sign_passes_checkSchnorr_secp256k1 _ .TAPROOT ht _ hht hdef fuel q aux sg hsign sig64 hser prog hpk)
+
+/-! ### the two address kinds whose signature sits (partly) in the scriptSig: the digests do not read it -/
+
+theorem legacyDigest_scriptSig (H : Bytes → Bytes) (sc : Bytes) (spend : Tx) (ss : Bytes) (ht : Nat) :
+    legacyDigest H sc (toSign H spend ss) 0 ht = legacyDigest H sc (toSign H spend []) 0 ht := by
+  have hg : ∀ j, ((toSign H spend ss).vin.getD j dfltIn).prev = ((toSign H spend []).vin.getD j dfltIn).prev ∧
+      ((toSign H spend ss).vin.getD j dfltIn).sequence = ((toSign H spend []).vin.getD j dfltIn).sequence := by
+    intro j; cases j <;> simp [toSign]
+  have hin : ∀ j, legacyIn sc (toSign H spend ss) 0 ht j = legacyIn sc (toSign H spend []) 0 ht j := by
+    intro j; simp only [legacyIn, (hg _).1, (hg _).2]
+  have htx : legacyTx sc (toSign H spend ss) 0 ht = legacyTx sc (toSign H spend []) 0 ht := by
+    have hf : legacyIn sc (toSign H spend ss) 0 ht = legacyIn sc (toSign H spend []) 0 ht := funext hin
+    simp only [legacyTx, hf]
+    rfl
+  simp only [legacyDigest, legacyPreimage, htx]
+  rfl
+
+theorem bip143Digest_scriptSig (H : Bytes → Bytes) (sc : Bytes) (spend : Tx) (ss : Bytes) (ht : Nat) (amount : Int) :
+    bip143Digest H sc (toSign H spend ss) 0 ht amount = bip143Digest H sc (toSign H spend []) 0 ht amount := rfl
+
+/-- BIP322 (full-variant payload with the simple variant's fields), p2pkh address: scriptSig `<sig> <pk>`. -/
+theorem simple_p2pkh_secp256k1 (flags : Nat) (msg h pk : Bytes) (ht : Nat) (hht : ht < 256)
+    {q k r s kid : Int} (hl : h.length = 20)
+    (hh : ripemd160 (sha256 pk) = h) (hpk : isCompressedPubKey pk = true)
+    (hp : secpParsePub pk = some ((EC.ops EC.secp256k1).mul q EC.secp256k1.G)) (hk : 0 < k ∧ k < EC.secp256k1.n)
+    (hsign : Ecdsa.signRecoverable (EC.ops EC.secp256k1)
+      (Rfc6979.challenge EC.secp256k1.n
+        (engineEcdsaDigest secpCrypto (signCtx secpCrypto msg (p2pkh h)) (p2pkh h) .BASE ht)) q k true = .ok (r, s, kid))
+    (der : Bytes) (hder : Der.serialize r s = .ok der) (hmax : der.length ≤ Gen.VarInt.MAX_SIZE)
+    (henc : checkSignatureEncoding flags (der ++ [UInt8.ofNat ht]) = .ok ())
+    (hs2 : 2 ≤ (der ++ [UInt8.ofNat ht]).length) (hs : (der ++ [UInt8.ofNat ht]).length < 76)
+    (hne : der ++ [UInt8.ofNat ht] ≠ h) :
+    verifySimple secpCrypto flags msg (p2pkh h) (pushData (der ++ [UInt8.ofNat ht]) ++ pushData pk) [] = .ok () := by
+  unfold verifySimple
+  rw [verifyInput_eq]
+  have hd : engineEcdsaDigest secpCrypto
+      (inputCtx secpCrypto (toSign secpCrypto.hash256 (toSpend secpCrypto.prm.TH msg (p2pkh h))
+        (pushData (der ++ [UInt8.ofNat ht]) ++ pushData pk)) (toSpend secpCrypto.prm.TH msg (p2pkh h)).vout 0 [])
+      (p2pkh h) .BASE ht =
+      engineEcdsaDigest secpCrypto (signCtx secpCrypto msg (p2pkh h)) (p2pkh h) .BASE ht :=
+    legacyDigest_scriptSig _ _ _ _ _
+  have hsig := Btc.E2E.sign_passes_checkECDSA_secp256k1
+    (inputCtx secpCrypto (toSign secpCrypto.hash256 (toSpend secpCrypto.prm.TH msg (p2pkh h))
+        (pushData (der ++ [UInt8.ofNat ht]) ++ pushData pk)) (toSpend secpCrypto.prm.TH msg (p2pkh h)).vout 0 [])
+    (p2pkh h) .BASE ht hht hk pk hp (by rw [hd]; exact hsign) der hder hmax
+  exact verify_p2pkh (envOf secpCrypto flags _) h _ pk hl hh henc hs2 hs hpk (findAndDelete_pkh h _ hl hs hne) hsig
+
+/-- BIP322, p2sh-p2wpkh address: scriptSig = push of `0 <h>`, witness `[sig, pk]`. -/
+theorem simple_p2sh_p2wpkh_secp256k1 (flags : Nat) (msg h hr pk : Bytes) (ht : Nat) (hht : ht < 256)
+    {q k r s kid : Int} (hl : h.length = 20) (hrl : hr.length = 20)
+    (hP : has flags FLAG_P2SH = true) (hW : has flags FLAG_WITNESS = true) (hnz : castToBool h = true)
+    (hhr : ripemd160 (sha256 (p2wpkh h)) = hr)
+    (hh : ripemd160 (sha256 pk) = h) (hpk : isCompressedPubKey pk = true)
+    (hp : secpParsePub pk = some ((EC.ops EC.secp256k1).mul q EC.secp256k1.G)) (hk : 0 < k ∧ k < EC.secp256k1.n)
+    (hsign : Ecdsa.signRecoverable (EC.ops EC.secp256k1)
+      (Rfc6979.challenge EC.secp256k1.n
+        (engineEcdsaDigest secpCrypto (signCtx secpCrypto msg (p2sh hr)) (p2pkh h) .WITNESS_V0 ht)) q k true =
+        .ok (r, s, kid))
+    (der : Bytes) (hder : Der.serialize r s = .ok der) (hmax : der.length ≤ Gen.VarInt.MAX_SIZE)
+    (henc : checkSignatureEncoding flags (der ++ [UInt8.ofNat ht]) = .ok ())
+    (hslen : (der ++ [UInt8.ofNat ht]).length ≤ 520) :
+    verifySimple secpCrypto flags msg (p2sh hr) (pushData (p2wpkh h)) [der ++ [UInt8.ofNat ht], pk] = .ok () := by
+  unfold verifySimple
+  rw [verifyInput_eq]
+  have hsig := Btc.E2E.sign_passes_checkECDSA_secp256k1
+    (inputCtx secpCrypto (toSign secpCrypto.hash256 (toSpend secpCrypto.prm.TH msg (p2sh hr)) (pushData (p2wpkh h)))
+      (toSpend secpCrypto.prm.TH msg (p2sh hr)).vout 0 [der ++ [UInt8.ofNat ht], pk])
+    (p2pkh h) .WITNESS_V0 ht hht hk pk hp hsign der hder hmax
+  exact verify_p2sh_p2wpkh (envOf secpCrypto flags _) h hr _ pk hl hrl hP hW hnz hhr hh henc hslen hpk hsig
 
 end Btc.Spend.Bip322
